@@ -182,6 +182,9 @@ func cmdCheck(args []string) {
 			}
 		}
 		rep := e.verifyFunction(fn, ct)
+		for _, ut := range rep.UsedTrusted {
+			usedTrusted[ut] = true
+		}
 		var mine []*Obl
 		for _, o := range rep.Obls {
 			if hasProp(o.Props, prop) {
